@@ -667,9 +667,24 @@ def run_case(desc, tmpdir):
 
 
 def validate(traces, invariants=('TraceConfluence',)):
-    return C.validate_traces('JsonLinesTrace', traces, workers=4, chunk=600,
-                             cfg_text=C.cfg(spec='TraceSpec', constants=TRACE_CONST,
-                                            invariants=list(invariants)))
+    """the long traces are dealt round-robin over the TLC invocations (they would otherwise
+    all end up in the last one and be validated one after the other)"""
+    n = len(traces)
+    chunk = 600 if n > 2400 else max(50, (n + 7) // 8)
+    nch = max(1, (n + chunk - 1) // chunk)
+    weight = lambda t: len(C.json.dumps(t))
+    order = sorted(range(n), key=lambda i: -weight(traces[i]))
+    bins = [[] for _ in range(nch)]
+    for j, i in enumerate(order):
+        bins[j % nch].append(i)
+    perm = [i for b in bins for i in b]
+    verdicts, st = C.validate_traces('JsonLinesTrace', [traces[i] for i in perm], workers=8, chunk=max(len(b) for b in bins),
+                                     cfg_text=C.cfg(spec='TraceSpec', constants=TRACE_CONST,
+                                                    invariants=list(invariants)))
+    out = [None] * n
+    for pos, i in enumerate(perm):
+        out[i] = verdicts[pos]
+    return out, st
 
 
 def brief(tr):
@@ -794,7 +809,7 @@ def main(tier, replay):
                               'dump_how': {0: 'open_obj', 1: 'path'}.get(i % 11, 'fileobj')})
     n_beh = len(cases)
     sizes = (['empty'] * 6 + ['tiny'] * 60 + ['medium'] * 40 + ['big'] * 14 + ['aligned'] * 8 + ['many'] * 4 + ['single'] * 8) if not thorough else \
-            (['empty'] * 12 + ['tiny'] * 400 + ['medium'] * 300 + ['big'] * 160 + ['aligned'] * 48 + ['many'] * 16 + ['single'] * 40)
+            (['empty'] * 12 + ['tiny'] * 400 + ['medium'] * 300 + ['big'] * 160 + ['aligned'] * 48 + ['many'] * 8 + ['single'] * 40)
     for n, size in enumerate(sizes):
         cases.append({'kind': 'rnd', 'seed': seed, 'n': n, 'size': size})
     traces, infos = [], []
